@@ -79,6 +79,7 @@ func TestC11(t *testing.T) {
 		ExtraAction{Name: "DropColl", Weight: 2, Gen: genDropColl},
 		ExtraAction{Name: "CreateColl", Weight: 2, Gen: genCreateColl},
 		ExtraAction{Name: "GhostWrite", Weight: 3, Gen: genGhostWrite},
+		ExtraAction{Name: "CpDump", Weight: 3, Gen: genCpDump},
 	)
 	seqProperty(t, "C11", "TestC11", pr, 800,
 		"rapid histories spread over 2-3 collections with identical key names, next to a second bucket with the same collection and key names; all entry points incl. Touch / GetAndTouchRaw, expiries, PurgeTombstones, design documents + view queries, SQL queries, per-collection and multi-collection feeds, DropDataStore and re-creation; after every step every key of every other collection and of the other bucket must read back identical, the other collections' query / view / design-doc probes must return the same bytes, and their feeds must have received nothing; non-trivial = a mutating step whose key exists in at least two collections in different states at that moment, in a history that also queries a view or drops a collection; distinct by <op, prior class, CAS class, outcome> sequence",
